@@ -239,9 +239,21 @@ func (lr *lbRun) finish(res *lbResult, level string, extra map[string]interface{
 		f *layerb.Finding
 	}
 	var viols []layerb.Finding
+	typecheckSeen := map[string]bool{}
 	for _, r := range res.Reports {
 		if r.Skipped != "" {
 			skipped = append(skipped, r.Conv.ID+": "+r.Skipped)
+			if strings.HasPrefix(r.Skipped, "C01 gate:") {
+				// goverter reported success but the emitted code does not type-check: the program cannot satisfy
+				// this property either (on the unchanged tree every corpus program compiles)
+				f := layerb.Finding{Conv: r.Conv.ID, Family: r.Conv.Family, Kind: "typecheck", Note: "goverter reported success but the emitted code does not type-check: " + firstLine(strings.TrimPrefix(r.Skipped, "C01 gate: "))}
+				if k := matchKnown(known, prop, f.Conv, f.Kind, f.Note); k != nil {
+					knownHits[k.What]++
+				} else if !typecheckSeen[f.Note] {
+					typecheckSeen[f.Note] = true
+					viols = append(viols, f)
+				}
+			}
 			continue
 		}
 		programs++
@@ -312,7 +324,9 @@ func (lr *lbRun) finish(res *lbResult, level string, extra map[string]interface{
 		}
 		dir := filepath.Join(replayDir, fmt.Sprintf("case%02d", lr.CaseBase+i))
 		status := "unsupported: generation outcome"
-		if f.Kind != "generation" {
+		if f.Kind == "typecheck" {
+			status = "unsupported: compile error of emitted code (see generated.go.txt)"
+		} else if f.Kind != "generation" {
 			// one native replay per conv and kind is enough
 			key := f.Conv + "|" + f.Kind
 			convSeen[key]++
